@@ -176,6 +176,35 @@ def normInf (abs : α → α) (max : α → α → α) (zero : α) (t : PTree α
 
 end reductions
 
+/-- `reduce(Vector.__add__, forest)`: left fold of `tree_map(add, ·, ·)`; `none` = structure mismatch -/
+def sumTrees {α : Type} [Add α] : PTree α → List (PTree α) → Option (PTree α)
+  | acc, [] => some acc
+  | acc, t :: ts => match PTree.map₂ (· + ·) acc t with
+    | some r => sumTrees r ts
+    | none => none
+
+/-- `forest_math.mean(forest) = (1/len(forest)) * reduce(add, forest)` -/
+def meanTrees {α : Type} [Add α] [Mul α] (inv : α) : List (PTree α) → Option (PTree α)
+  | [] => none
+  | t :: ts => (sumTrees t ts).map (PTree.map fun x => inv * x)
+
+/-! ### complex leaves: Gaussian integers (exact in complex128) -/
+
+structure GInt where
+  re : Int
+  im : Int
+  deriving Repr, DecidableEq, Inhabited
+
+namespace GInt
+instance : Add GInt := ⟨fun a b => ⟨a.re + b.re, a.im + b.im⟩⟩
+instance : Sub GInt := ⟨fun a b => ⟨a.re - b.re, a.im - b.im⟩⟩
+instance : Neg GInt := ⟨fun a => ⟨-a.re, -a.im⟩⟩
+instance : Mul GInt := ⟨fun a b => ⟨a.re * b.re - a.im * b.im, a.re * b.im + a.im * b.re⟩⟩
+instance : OfNat GInt 0 := ⟨⟨0, 0⟩⟩
+/-- complex conjugation -/
+def conj (a : GInt) : GInt := ⟨a.re, -a.im⟩
+end GInt
+
 /-- `where(condition, x, y)` with scalar broadcasting of `x`, `y` (and of the condition): the decision logic of
     vector_math.where on `num_nodes`, then `tree_map(jnp.where, c, x, y)` -/
 def whereOp {α : Type} (c : Operand Bool) (x y : Operand α) : Except OpErr (PTree α) :=
